@@ -3,7 +3,9 @@
    Model: Net/Tls.v ([verify] = makeVerifier, [tls_handshake] = crypto/tls
    around it, [router_accepts] = receiveServerIdentity, [link] = which identity
    the router stamps on dispatched messages).  [pinned] is the rule of the
-   pinned tree; [fix_f09], [fix_bind] and [fix_nokey] are the three repairs. *)
+   pinned tree; [fix_f09], [fix_bind], [fix_nokey], [fix_resume] are the four
+   repairs.  Which of them /repo carries is [Corr.C08.code_fx]; the theorems
+   c08_current_code_* at the end are about exactly that variant. *)
 From Coq Require Import List Arith ZArith Bool.
 Import ListNotations.
 From Onet Require Import Base.Corr Net.Tls Net.TlsProofs Corr.C08 Net.TlsCorrProofs.
@@ -258,7 +260,7 @@ Theorem c08_pinned_violates_property_nokey :
 Proof. exact pinned_link_violates_property_nokey. Qed.
 Print Assumptions c08_pinned_violates_property_nokey.
 
-(* the model with all repairs satisfies it for every peer bound by
+(* the model with the first three repairs satisfies it (full handshakes; tickets: c08_repaired_link_r_...) for every peer bound by
    unforgeability, every chain, identity message, role, suite, message count *)
 Theorem c08_repaired_link_satisfies_property : forall holds own_tls htls r s h id msgs,
   (forall k, ~ In k holds -> own_tls (htls k) = false) ->
@@ -305,3 +307,86 @@ Theorem c08_mismatches_nil_iff : forall l : list case,
   forall c, In c l -> case_model c = case_observed c /\ case_honest_proof c = true.
 Proof. exact mismatches_nil_iff. Qed.
 Print Assumptions c08_mismatches_nil_iff.
+
+(* --- TLS session resumption --------------------------------------------------- *)
+
+(* unrepaired: a peer that once completed an honest handshake reconnects with its
+   session ticket alone -- no certificate, nothing signed over the new nonce --
+   and is served: freshness (clause 2) fails, the identity clauses hold *)
+Theorem c08_resumption_refuted :
+  let t := Some (earlier_cert 2 0, true) in
+  let h := Hello [] 0 in
+  let '(o, resumed) := link_r pinned LTls RAccept Ed25519 t h IdMatch 2 in
+  resumed = true /\ o = mkout true 2 [2; 2] false /\
+  prop_check LTls RAccept Ed25519 [2; 3] (effective resumed t h) IdMatch
+             (out_hs o) (out_disp o) (out_stamp o) (out_crash o) = [2].
+Proof. exact resumption_refuted. Qed.
+Print Assumptions c08_resumption_refuted.
+
+Theorem c08_resumption_only_same_incarnation : forall fx lv r s t h id msgs,
+  snd (link_r fx lv r s t h id msgs) = true ->
+  lv = LTls /\ r = RAccept /\ fix_resume fx = false /\ exists c0, t = Some (c0, true).
+Proof. exact resumption_only_same_incarnation. Qed.
+Print Assumptions c08_resumption_only_same_incarnation.
+
+Theorem c08_resumed_identity_is_ticket_key : forall fx s c0 id msgs k,
+  In k (out_stamp (accepted_conn fx s c0 id msgs)) ->
+  key_of_cn s (c_cn c0) = Some k /\ declared s c0 id = Some k.
+Proof. exact resumed_identity_is_ticket_key. Qed.
+Print Assumptions c08_resumed_identity_is_ticket_key.
+
+Theorem c08_no_resumption_when_repaired : forall fx lv r s t h id msgs,
+  fix_resume fx = true -> link_r fx lv r s t h id msgs = (link fx lv r s h id msgs, false).
+Proof. exact no_resumption_when_repaired. Qed.
+Print Assumptions c08_no_resumption_when_repaired.
+
+(* all four repairs: the property, also against peers offering tickets *)
+Theorem c08_repaired_link_r_satisfies_property : forall holds own_tls htls r s t h id msgs,
+  (forall k, ~ In k holds -> own_tls (htls k) = false) ->
+  let fx := mkfixes true true true true in
+  presentable fx holds own_tls htls h ->
+  let '(o, resumed) := link_r fx LTls r s t h id msgs in
+  link_property LTls r s holds (effective resumed t h) id (out_hs o) (out_disp o) (out_stamp o) (out_crash o).
+Proof. exact repaired_link_r_satisfies_property. Qed.
+Print Assumptions c08_repaired_link_r_satisfies_property.
+
+(* --- the code as it is (Corr.C08.code_fx) ------------------------------------ *)
+
+(* which variant /repo is; edit together with the conf text when a flag flips *)
+Example c08_current_code_variant : code_fx = mkfixes true false true false.
+Proof. exact current_code_variant. Qed.
+Print Assumptions c08_current_code_variant.
+
+(* the guarantee of the code's variant, with its two exceptions spelled out in
+   [guarantee]: possession up to RELAY (F28), freshness/validity up to RESUMPTION *)
+Theorem c08_current_code_guarantee : forall holds own_tls htls r s t h id msgs,
+  (forall k, ~ In k holds -> own_tls (htls k) = false) ->
+  presentable code_fx holds own_tls htls h ->
+  ticket_ok holds s t ->
+  guarantee holds r s id (snd (link_r code_fx LTls r s t h id msgs))
+            (effective (snd (link_r code_fx LTls r s t h id msgs)) t h)
+            (fst (link_r code_fx LTls r s t h id msgs)).
+Proof. exact current_code_guarantee. Qed.
+Print Assumptions c08_current_code_guarantee.
+
+Theorem c08_current_code_relay_open : forall holds own_tls htls s now n k tk,
+  fix_bind code_fx = false -> ~ In k holds -> own_tls tk = true ->
+  let c := mkcert (pub_to_cn k) [URI true true (pub_to_cn k)] (Some (SigBy k n (pub_to_cn k) None))
+                  tk SgSelf (now - 300) (now + 7200) true false in
+  presentable code_fx holds own_tls htls (Hello [RawOne c] tk) /\
+  tls_handshake code_fx s now n (Some k) (Hello [RawOne c] tk) = Accept /\
+  tls_handshake code_fx s now n None (Hello [RawOne c] tk) = Accept.
+Proof. exact current_code_relay_open. Qed.
+Print Assumptions c08_current_code_relay_open.
+
+Theorem c08_current_code_resumption_open : forall s c0 h id msgs,
+  fix_resume code_fx = false ->
+  link_r code_fx LTls RAccept s (Some (c0, true)) h id msgs = (accepted_conn code_fx s c0 id msgs, true).
+Proof. exact current_code_resumption_open. Qed.
+Print Assumptions c08_current_code_resumption_open.
+
+Theorem c08_current_code_resumption_closed : forall lv r s t h id msgs,
+  fix_resume code_fx = true ->
+  link_r code_fx lv r s t h id msgs = (link code_fx lv r s h id msgs, false).
+Proof. exact current_code_resumption_closed. Qed.
+Print Assumptions c08_current_code_resumption_closed.
